@@ -51,8 +51,17 @@ def decOptBool (j : Json) : Option Bool :=
   | .bool b => some b
   | _ => none
 
+def decAddition (j : Json) : Addition :=
+  match j with
+  | .bool true => .yes
+  | .bool false => .no
+  | _ => match obj? j "typed" with
+    | some t => .typed (decTy t)
+    | none => .none
+
 def decOpts (j : Json) : Opts :=
-  { ndl := bool! (fld j "ndl"), nec := bool! (fld j "nec"), addition := decOptBool (fld j "addition"),
+  { ndl := bool! (fld j "ndl"), nec := bool! (fld j "nec"), addition := decAddition (fld j "addition"),
+    addTy := if isNull (fld j "addTy") then none else some (decTy (fld j "addTy")),
     invalidItems := (decPolicy (fld j "invalid_items")).getD .throw,
     invalidKeys := (decPolicy (fld j "invalid_keys")).getD .throw,
     invalidValues := (decPolicy (fld j "invalid_values")).getD .throw,
@@ -208,10 +217,22 @@ def handle (j : Json) : Json :=
   let modes := (arr! (fld j "modes")).map decMode
   let legacy := bool! (fld j "legacy")
   let items := (arr! (fld j "items")).map str!
+  let call := obj? j "call"
   let go (W : World) : Json :=
-    let runs := modes.map fun m => encRes encData (if legacy then runLegacy W fuel decl m o data else run W fuel decl m o data)
-    let alone := items.map fun i => Json.arr #[Json.str i, Json.bool (failsAlone W fuel decl o data i)]
-    Json.mkObj [("runs", Json.arr runs.toArray), ("alone", Json.arr alone.toArray)]
+    match call with
+    | none =>
+      let runs := modes.map fun m => encRes encData (if legacy then runLegacy W fuel decl m o data else run W fuel decl m o data)
+      let alone := items.map fun i => Json.arr #[Json.str i, Json.bool (failsAlone W fuel decl o data i)]
+      Json.mkObj [("runs", Json.arr runs.toArray), ("alone", Json.arr alone.toArray)]
+    | some cj =>
+      let sg : Sig := { decl := decl, npos := nat! (fld cj "npos"), hasVar := bool! (fld cj "hasVar"),
+                        posTy := if isNull (fld cj "posTy") then none else some (decTy (fld cj "posTy")) }
+      let args := (arr! (fld cj "args")).map decVal
+      let encCall (r : List Val × Data) : Json :=
+        Json.mkObj [("args", Json.arr (r.1.map encVal).toArray), ("kw", encData r.2)]
+      let runs := modes.map fun m => encRes encCall (runCall W fuel sg m o args data)
+      let alone := items.map fun i => Json.arr #[Json.str i, Json.bool (callFails W fuel sg o args data i)]
+      Json.mkObj [("runs", Json.arr runs.toArray), ("alone", Json.arr alone.toArray)]
   let a := go (mkWorld T none)
   let b := go (mkWorld T (some missVal))
   Json.mkObj [("model", a), ("miss", Json.bool (a.compress != b.compress))]
